@@ -322,7 +322,7 @@ class List(list, base.Symbolic, pg_typing.CustomTyping):
     """Override Symbolic._clone."""
     source = []
     for v in self.sym_values():
-      if deep or isinstance(v, base.Symbolic):
+      if deep or isinstance(v, (base.Symbolic, tuple)):
         v = base.clone(v, deep, memo)
       source.append(v)
     return List(
